@@ -338,7 +338,15 @@ func runHistory(c *Ctx, genName string, idx int, hooks *historyHooks) {
 			model.Apply(t, ui)
 			added = txnInfo(t, ui, gcfg.HashSize(), gcfg.ExactLog)
 		case "compactall":
-			opErr = rtx.Safe(func() error { return st.CompactAll(nil) })
+			if rng.Chance(0.3) {
+				// with an expiry configuration that expires nothing (every update index
+				// is >= 1): the same compaction, and the only one that rewrites a stack
+				// of a single table
+				desc = "compactall(MinUpdateIndex=1)"
+				opErr = rtx.Safe(func() error { return st.CompactAll(&reftable.LogExpirationConfig{MinUpdateIndex: 1}) })
+			} else {
+				opErr = rtx.Safe(func() error { return st.CompactAll(nil) })
+			}
 		case "autocompact":
 			opErr = rtx.Safe(func() error { return st.AutoCompact() })
 		case "compactrange":
